@@ -47,6 +47,8 @@ type spec struct {
 	Closes []int `json:"closes_after,omitempty"`
 	// also run the `vegeta report` command on a results file holding the data set
 	CLI bool `json:"cli,omitempty"`
+	// periodic: the latency's mode depends on the position modulo Period (endpoints attacked round robin)
+	Period int `json:"period,omitempty"`
 	// a few records in the middle of the results file carry large bodies (40..200 KiB): their JSON lines
 	// exceed 64 KiB, their gob/CSV records are large too
 	BigBodies bool `json:"big_bodies,omitempty"`
@@ -139,6 +141,26 @@ func (sp spec) generate() []int64 {
 				xs[i] = clampLat(hi + g.Int63n(whi))
 			}
 		}
+	case "periodic":
+		// Period well-separated modes (1–2 ms, 10–20 ms, 100–200 ms, 1–2 s …), the i-th arrival from mode i mod Period
+		p := sp.Period
+		if p < 2 {
+			p = 2
+		}
+		for i := range xs {
+			j := i % p
+			base := int64(time.Millisecond)
+			if p == 2 {
+				if j == 1 {
+					base = int64(time.Second)
+				}
+			} else {
+				for t := 0; t < j; t++ {
+					base *= 10
+				}
+			}
+			xs[i] = base + g.Int63n(base)
+		}
 	case "zeromix":
 		// many exact zeros among a few non-zero values: interleaved at random, or in runs after a large value
 		vals := []int64{int64(time.Millisecond) * (1 + g.Int63n(20)), int64(time.Millisecond) * (1 + g.Int63n(20)), 1 + g.Int63n(1000)}
@@ -193,6 +215,8 @@ func (sp spec) generate() []int64 {
 		xs[g.Intn(len(xs))] = 0
 	}
 	switch sp.Order {
+	case "shuffled":
+		g.Shuffle(len(xs), func(i, j int) { xs[i], xs[j] = xs[j], xs[i] })
 	case "sorted":
 		sort.Slice(xs, func(i, j int) bool { return xs[i] < xs[j] })
 	case "reverse":
@@ -885,6 +909,7 @@ func runC11(c *run.Ctx, s *kit.Summary) {
 		"3% with zero latencies; arrival orders random / sorted / reverse-sorted; per set ~130 quantile arguments (Close's four, the HDR ladder, 0, 1, segment borders ± 1 ulp, tails, out of range, NaN); " +
 		"compression pass: on vegeta's own estimator the Adds that trigger process (all for n ≤ 2500, else the first two, 2% and the last), one plain Add and the process() at Close; plus stand-alone digests with compression 1..20 (tiny buffers, incl. the len(processed) > maxProcessed trigger, weights 1..4, NaN samples) with EVERY Add checked; " +
 		"histories: 30% with 1..3 intermediate Close calls / HDR reports without Close, 20% with a second Close; 30% with failed requests (slowest tenth code 0 + error, other codes mixed); 8% also through `vegeta report` (json, text, hdrplot; gob/JSON/CSV input; a third with -every); oracle on fields, JSON, text, HDR rows and the command's outputs; " +
+		"3 (quick) / 15 (thorough) data sets of 70 000 / 100 000 samples whose mode depends on the arrival position modulo 2 or 4 (round-robin endpoints) with a shuffled control, one through `vegeta report`; " +
 		"several Metrics at once: 80 / 800 runs of 2..4 Metrics values with interleaved Add / Close / Quantile / HDR-report calls, every instance judged against its own samples (also when revisited after the others were closed); " +
 		"call sequences: 300 / 5000 random histories of ≤ 40 Add / Close / Quantile / HDR-report calls (queries before the first Add, double Close, timestamps increasing / all equal / decreasing / random) compared call by call with Model/LatencySeq; " +
 		"non-trivial = distinct data set with ≥2 samples and ≥2 distinct values"
@@ -901,6 +926,23 @@ func runC11(c *run.Ctx, s *kit.Summary) {
 	}
 	for i, sp := range corpus() {
 		k.check(sp, fmt.Sprintf("corpus%d", i))
+	}
+	// more than 2^16 samples in ONE Metrics, arriving in a pattern of even period (two / four endpoints attacked
+	// round robin), plus the same multiset shuffled as a control; one of them also through the report command
+	periodic := []spec{
+		{Dist: "periodic", N: 100000, Order: "random", Seed: 11, Period: 2},
+		{Dist: "periodic", N: 100000, Order: "random", Seed: 12, Period: 4, CLI: true},
+		{Dist: "periodic", N: 70000, Order: "shuffled", Seed: 13, Period: 2},
+	}
+	if c.Tier == "thorough" {
+		for i := 0; i < 12; i++ {
+			periodic = append(periodic, spec{Dist: "periodic", N: []int{70000, 100000}[r.Pick(2)], Order: []string{"random", "random", "shuffled"}[r.Pick(3)],
+				Seed: r.Int63(), Period: []int{2, 4}[r.Pick(2)], CLI: r.Chance(0.3), Closes: []int{1 + r.Pick(60000)}})
+		}
+	}
+	for _, sp := range periodic {
+		s.Count(fmt.Sprintf("periodic:n=%d period=%d order=%s cli=%v", sp.N, sp.Period, sp.Order, sp.CLI))
+		k.check(sp, "p")
 	}
 	// fixed small cases: the tiny sizes the statement's quantifier starts at
 	for _, ls := range [][]int64{{7}, {1, 2}, {5, 5}, {1, 1000000000000}, {3, 2, 1}, {1, 2, 3, 4, 5}, {10, 10, 10, 20}, {0, 5}, {0, 0}} {
